@@ -106,8 +106,13 @@ def index_loop(body, h, enclosing_events=None, full=False):
                 v = sets[-1].b
                 if isinstance(v, tuple) and v[0] == "binop" and v[1] == "Sub" and const_int(v[3]) == 1:
                     x = v[2]
+                    narrow = False
                     while isinstance(x, tuple) and x[0] == "cast":
+                        if x[2] not in ("isize", "usize", "i64", "u64", "i128", "u128"):
+                            narrow = True       # `len as u8 as isize`: the sweep would start in the middle of a long vector
                         x = x[1]
+                    if narrow:
+                        il.problems.append("counter initial value passes through a type narrower than the length")
                     if isinstance(x, tuple) and x[0] == "len":
                         il.list_term = mir.strip(x[1])
                         init_ok = True
